@@ -54,7 +54,8 @@ pub fn plan(tier: Tier) -> Plan {
     match tier {
         Tier::Quick => {
             terms.extend(start_terms(3));
-            Plan { terms, max_subset: 3, iters: 3, primes: vec![5], node_budget: 250 }
+            // quick: pairs of rules for every start term, triples for the hand-made terms only (segment 3)
+            Plan { terms, max_subset: 2, iters: 3, primes: vec![5], node_budget: 250 }
         }
         Tier::Thorough => {
             terms.extend(start_terms(4));
@@ -71,6 +72,11 @@ pub fn decode(pl: &Plan, seg: usize, idx: u64) -> (usize, Vec<usize>, bool) {
             // every term x every rule subset of size <= max_subset, SynExprSubst
             let ns = subsets_upto(nr, pl.max_subset);
             ((idx / ns) as usize, subset_unrank(nr, pl.max_subset, idx % ns), false)
+        }
+        3 => {
+            // the hand-made (binder-heavy / slot-sharing) terms x every rule subset of size <= 3, SynExprSubst
+            let ns = subsets_upto(nr, 3);
+            ((idx / ns) as usize, subset_unrank(nr, 3, idx % ns), false)
         }
         1 => {
             // every term x the full pool x both substitution methods
@@ -164,7 +170,46 @@ pub fn graph_goals<N: Analysis<Ar>>(eg: &EGraph<Ar, N>) -> u64 {
     g
 }
 
-fn run<M: SubstMethod<Ar, ()> + 'static>(start: &T, rules_idx: &[usize], pl_iters: usize, primes: &[u32], budget: usize) -> (Vec<Fail>, u64, u64, Vec<u64>, u64) {
+fn has_binder(t: &T) -> bool {
+    t.args.iter().any(|a| match a {
+        Arg::Bind(..) => true,
+        Arg::Child(c) => has_binder(c),
+        _ => false,
+    })
+}
+
+/// maximal sub-terms that contain no binder
+fn binder_free_parts(t: &T, out: &mut Vec<T>) {
+    if !has_binder(t) {
+        out.push(t.clone());
+        return;
+    }
+    for a in &t.args {
+        if let Arg::Child(c) | Arg::Bind(_, c) = a {
+            binder_free_parts(c, out);
+        }
+    }
+}
+
+fn bound_names_of(t: &T, out: &mut Vec<Name>) {
+    for a in &t.args {
+        match a {
+            Arg::Bind(xs, c) => {
+                out.extend(xs.iter().copied());
+                bound_names_of(c, out);
+            }
+            Arg::Child(c) => bound_names_of(c, out),
+            _ => {}
+        }
+    }
+}
+
+/// `fresh_names`: a copy of the start term with other names is inserted first (so every class the start term needs
+/// exists already), then the start term itself with free and bound names spelled like the library's next fresh
+/// slots - the situation of a term printed by another session and parsed back (no internally invented slot may
+/// capture them)
+fn run<M: SubstMethod<Ar, ()> + 'static>(start: &T, rules_idx: &[usize], pl_iters: usize, primes: &[u32], budget: usize, fresh_names: bool) -> (Vec<Fail>, u64, u64, Vec<u64>, u64) {
+    AR_FRESH_NAMES.with(|c| c.set(fresh_names));
     let pool = rule_pool();
     let mut fails: Vec<Fail> = Vec::new();
     let mut evals = 0u64;
@@ -176,6 +221,25 @@ fn run<M: SubstMethod<Ar, ()> + 'static>(start: &T, rules_idx: &[usize], pl_iter
     {
         let mut eg = EGraph::<Ar>::with_subst_method::<M>(());
         let rules: Vec<Rewrite<Ar>> = rules_idx.iter().map(|i| mk_rule(&pool[*i])).collect();
+        if fresh_names {
+            // every maximal binder-free sub-term of a renamed copy is inserted first: the binder nodes of the start term
+            // are then the first NEW e-nodes (their bound slots get renamed to fresh ones at that moment)
+            let copy = start.rename_all(&|n| n + 50);
+            let mut parts = Vec::new();
+            binder_free_parts(&copy, &mut parts);
+            for p in &parts {
+                let _ = catch(|| eg.add_expr(ar_recexpr(p)));
+            }
+            // name creation order: bound names first, free names last (the most recently named slot is a free one)
+            let mut bound = Vec::new();
+            bound_names_of(start, &mut bound);
+            for n in bound {
+                ar_slot(n);
+            }
+            for n in start.fv() {
+                ar_slot(n);
+            }
+        }
         let root = match catch(|| eg.add_expr(ar_recexpr(start))) {
             Ok(r) => r,
             Err(site) => {
@@ -183,7 +247,7 @@ fn run<M: SubstMethod<Ar, ()> + 'static>(start: &T, rules_idx: &[usize], pl_iter
                 return (fails, evals, goals, fps, transitions);
             }
         };
-        check_against_model(&eg, &root, start, primes, "after insertion", &mut fails, &mut evals);
+        check_against_model(&eg, &root, start, primes, if fresh_names { "after insertion next to a renamed copy, with names spelled like the next fresh slots" } else { "after insertion" }, &mut fails, &mut evals);
         for it in 1..=pl_iters {
             let before_nodes = eg.total_number_of_nodes();
             let r = catch(|| apply_rewrites(&mut eg, &rules));
@@ -256,13 +320,14 @@ impl Prop for RewriteProp {
             Seg { name: format!("terms x rule-subsets<={}", pl.max_subset), count: nt * subsets_upto(nr, pl.max_subset), what: format!("one index = one of {nt} start terms x one subset of <= {} of the {nr} model-valid rules; SynExprSubst; up to {} iterations of apply_rewrites (node budget {}), then Runner::run", pl.max_subset, pl.iters, pl.node_budget) },
             Seg { name: "terms x full-pool x both-subst-methods".into(), count: nt * 2, what: "one index = one start term x all rules x SynExprSubst/ExtractionSubst".into() },
             Seg { name: "terms x let-subst-pairs x ExtractionSubst".into(), count: nt * nr, what: "one index = one start term x {let-subst} or {let-subst, one other rule} with ExtractionSubst".into() },
+            Seg { name: "special-terms x rule-subsets<=3".into(), count: if pl.max_subset >= 3 { 0 } else { special_terms().len() as u64 * subsets_upto(nr, 3) }, what: format!("one index = one of the {} hand-made binder-heavy / slot-sharing start terms x one subset of <= 3 rules (quick tier only; thorough takes triples for every term in the first segment)", special_terms().len()) },
         ]
     }
     fn goals(&self) -> Vec<&'static str> {
         vec!["class_whose_node_has_redundant_slot", "cyclic_class", "symmetric_class", "rewrite_added_nodes", "rule_moving_term_under_binder_fired", "substitution_form_fired", "conditional_rule_fired"]
     }
     fn rule(&self) -> String {
-        "Start terms: all terms of size <=3 (thorough 4) of the arithmetic language (numbers 0,1,2; two free slots; sum and let binders up to depth 2) plus eight binder-heavy terms. Rule sets: every subset of <=2 (thorough 3) of a 22-rule pool, the full pool, and let-subst pairs; SynExprSubst and ExtractionSubst; driven by apply_rewrites for up to 3 (4) iterations within a node budget and by Runner::run. Every rule is first self-tested to be an identity of the model for all admissible instantiations by small terms in F_5 and F_7. After insertion and after EVERY iteration: class value tables are built by least fixpoint and EVERY e-node of EVERY class is evaluated under ALL environments of its slots in F_5 (thorough also F_7) including slots the class does not have, and the root class is compared with the directly evaluated start term. Non-trivial = executions in which rewriting added nodes is a coverage goal; states = progress fingerprints after each iteration.".into()
+        "Start terms: all terms of size <=3 (thorough 4) of the arithmetic language (numbers 0,1,2; two free slots; sum and let binders up to depth 2) plus eight binder-heavy terms. Rule sets: every subset of <=2 rules (triples too for the hand-made terms; thorough: triples for every term) of a 25-rule pool, the full pool, and let-subst pairs; subsets of <=1 rule are also run in a second presentation (a renamed copy of the start term inserted first, the start term's names spelled like the library's next fresh slots); SynExprSubst and ExtractionSubst; driven by apply_rewrites for up to 3 (4) iterations within a node budget and by Runner::run. Every rule is first self-tested to be an identity of the model for all admissible instantiations by small terms in F_5 and F_7. After insertion and after EVERY iteration: class value tables are built by least fixpoint and EVERY e-node of EVERY class is evaluated under ALL environments of its slots in F_5 (thorough also F_7; `sum $x b` = b[1]+b[2]+b[3], NOT the sum over the whole field, which would annihilate every summand of degree < p-1) including slots the class does not have, and the root class is compared with the directly evaluated start term. Non-trivial = executions in which rewriting added nodes is a coverage goal; states = progress fingerprints after each iteration.".into()
     }
     fn assumptions(&self) -> Vec<String> {
         vec!["environments are enumerated completely for the prime fields p=5 (and 7), not drawn at random; an unsound merge that is an identity in both fields is invisible".into(), "e-graphs above the node budget are not evaluated".into()]
@@ -293,7 +358,20 @@ impl Prop for RewriteProp {
         let (iters, primes, budget) = (pl.iters, pl.primes.clone(), pl.node_budget);
         let rs2 = rs.clone();
         let s2 = start.clone();
-        let r = fresh_thread(move || if ext { run::<ExtractionSubst>(&s2, &rs2, iters, &primes, budget) } else { run::<SynExprSubst>(&s2, &rs2, iters, &primes, budget) });
+        // rule subsets of at most one rule are also run in the "parsed back from another session" presentation
+        let also_fresh = rs.len() <= 1;
+        let r = fresh_thread(move || {
+            let mut r = if ext { run::<ExtractionSubst>(&s2, &rs2, iters, &primes, budget, false) } else { run::<SynExprSubst>(&s2, &rs2, iters, &primes, budget, false) };
+            if also_fresh && r.0.is_empty() {
+                let r2 = if ext { run::<ExtractionSubst>(&s2, &rs2, iters, &primes, budget, true) } else { run::<SynExprSubst>(&s2, &rs2, iters, &primes, budget, true) };
+                r.0.extend(r2.0);
+                r.1 += r2.1;
+                r.2 |= r2.2;
+                r.3.extend(r2.3);
+                r.4 += r2.4;
+            }
+            r
+        });
         out.traces = 1;
         let pool = rule_pool();
         let ctx = format!("start {} rules {:?} {}", start.to_sexp(), rs.iter().map(|i| pool[*i].name).collect::<Vec<_>>(), if ext { "ExtractionSubst" } else { "SynExprSubst" });
